@@ -19,7 +19,8 @@ META = {
     "require": {t: ["class:ndims=1", "class:ndims=4", "class:n=0", "class:common_without_rows", "class:empty_intersection",
                     "events:mixed", "events:all_uncommon", "walk:callbacks=3", "via:interactions",
                     "walk:after_in_place_edit", "class:strided_rowid_arrays", "walk:repeated",
-                    "class:frequent_category_stored_explicitly"] for t in ("quick", "thorough")},
+                    "class:frequent_category_stored_explicitly", "class:exactly_256_uncommon_categories",
+                    "class:stored_category_without_rows"] for t in ("quick", "thorough")},
     "assumptions": ["the order of delivery is not part of the property; only the multiset of (coordinates, row ids)"],
 }
 
@@ -33,6 +34,22 @@ def shards(tier):
 def cases(ctx):
     rng = ctx.rng
     for i in range(ctx.shard["n"]):
+        if i % 300 == 41:
+            # exactly 256 (rarely 65536) uncommon categories, all present, in a non-first dimension
+            m = 65536 if (i == 341 and ctx.shard_index < 2) else 256
+            n = m + int(rng.integers(5, 60))
+            a1 = numpy.concatenate([numpy.arange(1, m + 1), rng.integers(0, m + 1, size=n - m)]).astype(numpy.int64)
+            rng.shuffle(a1)
+            a0 = rng.integers(0, 3, size=n).astype(numpy.int64)
+            c = {"dense": [a0, a1] if rng.random() < 0.8 else [a0, a1, rng.integers(0, 2, size=n).astype(numpy.int64)],
+                 "commons": [int(rng.integers(0, 3)), 0], "shape": None, "extents": [3, m + 1]}
+            if len(c["dense"]) == 3:
+                c["commons"].append(0)
+                c["extents"].append(2)
+            c["ncallbacks"], c["via"], c["stride_seed"], c["edit_seed"] = 1, "interactions", None, None
+            ctx.count("class:exactly_%d_uncommon_categories" % m)
+            yield c
+            continue
         if i % 150 == 77:
             # thousands of rows, a frequent category stored explicitly: long row-id lists against short ones
             from .c02 import lopsided_case
@@ -47,11 +64,44 @@ def cases(ctx):
         c["ncallbacks"] = int(rng.integers(1, 4))
         c["stride_seed"] = int(rng.integers(0, 2 ** 31)) if rng.random() < 0.25 else None
         c["edit_seed"] = int(rng.integers(0, 2 ** 31)) if rng.random() < 0.3 else None
+        c["empty_seed"] = int(rng.integers(0, 2 ** 31)) if (c["edit_seed"] is None and rng.random() < 0.15) else None
         c["via"] = gen.pick(rng, ["interactions", "walk"])
         yield c
 
 
 def expected_events(dense, commons):
+    """Row-wise oracle: a row whose uncommon coordinates are {d: v_d, d in U} matches exactly the
+    combinations that keep v_d on a non-empty subset of U and are marginal elsewhere."""
+    n = dense[0].shape[0]
+    nd = len(dense)
+    unc = [a != c for a, c in zip(dense, commons)]
+    exp = {}
+    subsets = [s for s in itertools.product([False, True], repeat=nd) if any(s)]
+    for s in subsets:
+        mask = numpy.ones(n, dtype=bool)
+        for d in range(nd):
+            if s[d]:
+                mask &= unc[d]
+        rows = numpy.nonzero(mask)[0]
+        if not len(rows):
+            continue
+        keycols = [dense[d][rows] if s[d] else numpy.full(len(rows), -1, dtype=numpy.int64) for d in range(nd)]
+        order = numpy.lexsort(keycols[::-1])
+        srows = rows[order]
+        skeys = numpy.stack([k[order] for k in keycols], axis=1)
+        change = numpy.nonzero(numpy.any(skeys[1:] != skeys[:-1], axis=1))[0] + 1
+        starts = numpy.concatenate([[0], change])
+        ends = numpy.concatenate([change, [len(srows)]])
+        for a, b in zip(starts, ends):
+            exp[tuple(int(v) for v in skeys[a])] = numpy.sort(srows[a:b]).tolist()
+    # number of combinations of present uncommon categories that match no row (they must be skipped)
+    total = 1
+    for a, c in zip(dense, commons):
+        total *= len([v for v in numpy.unique(a).tolist() if v != c]) + 1
+    return exp, (total - 1) - len(exp)
+
+
+def expected_events_bruteforce(dense, commons):
     per_dim = []
     for a, c in zip(dense, commons):
         unc = [int(v) for v in numpy.unique(a).tolist() if v != c]
@@ -88,6 +138,14 @@ def judge(ctx, case):
     exp, empties = expected_events(dense, commons)
     if empties:
         ctx.count("class:empty_intersection")
+    if case.get("empty_seed") is not None:
+        # categories that are stored but matched by no row (an index may hold them): nothing may be
+        # presented for them
+        r4 = numpy.random.default_rng(case["empty_seed"])
+        for d, x in enumerate(dims):
+            if r4.random() < 0.6:
+                dict.__setitem__(x, (case["extents"][d] + 1 + int(r4.integers(0, 3)),), numpy.zeros(0, dtype=U32))
+        ctx.count("class:stored_category_without_rows")
     if case.get("stride_seed") is not None:
         r3 = numpy.random.default_rng(case["stride_seed"])
         for d in dims:
